@@ -19,18 +19,50 @@ def chk(pid, text, technique, design_ref, note=TB):
     }
 
 
+CORR = "Lean 4 proof over a hand-written model + generated tables; correspondence (differential) tie; failing-input search"
+
 CHECKS = [
     chk("C01",
         "Lean theorems: the grouped-kernel contract puts in every slot the NumPy reduction of exactly that group's members "
-        "(original order), dropped codes affect no slot, flox's sort+reduceat engine equals that contract; the model is tied to "
-        "/repo by the regenerated registry/_initialize_aggregation tables and by differential execution of groupby_reduce on all "
-        "engines against the Lean model and a NumPy oracle.",
-        "Lean 4 proof over a hand-written model + generated tables; correspondence (differential) tie; failing-input search",
-        "DESIGN.md §7 C01"),
+        "(original order), dropped codes affect no slot, flox's sort+reduceat engine equals that contract (stable sort proved), "
+        "engine independence at kernel level, and the eager pipeline equals the NumPy-per-group specification; tied to /repo by the "
+        "regenerated registry/_initialize_aggregation tables and by differential execution of groupby_reduce on all engines "
+        "against the Lean model and a NumPy oracle.", CORR, "DESIGN.md §7 C01"),
+    chk("C02",
+        "Lean theorems: for every chunking and every split_every the map-reduce plan with simple combine yields, in every slot, "
+        "blockVal of all members (independent of chunks/tree) and hence the eager result; generated rows are shown to have a proven "
+        "shape; the other plans (combine-time reindex, cohorts, blockwise, grouped combine) are tied by differential execution "
+        "of the real graph against the Lean pipeline model (which reproduces them exactly) and the NumPy oracle.", CORR, "DESIGN.md §7 C02"),
+    chk("C03",
+        "Lean theorems: any bracketing of the n-ary combine over ordered parts gives blockVal of the concatenated members "
+        "(PTree.eval_eq, no commutativity assumed), the tree built by treeReduce for any split_every gives the same Inter; real graphs "
+        "are executed under sync / threaded schedulers and in seeded random topological orders for split_every 2..#blocks and compared "
+        "with model, oracle and a reference run.", CORR, "DESIGN.md §7 C03"),
+    chk("C05",
+        "Lean spec `Spec.slot` (one slot per requested label; fill verbatim when absent or under min_count) proved equal to the "
+        "model's eager/map-reduce result under the documented contract; the implicit min_count rule and the nanmin/nanmax default "
+        "are modelled from the regenerated _initialize_aggregation table; differential execution over fills {NaN,0,False,-7,1e6} x "
+        "min_count {None,0,1,2,20} x expected super/sub/disjoint/unsorted sets x all plans.", CORR, "DESIGN.md §7 C05"),
+    chk("C06",
+        "Lean model of the (value, global index) intermediates and of first/last combines; arg-reduction decomposition law "
+        "(first extreme wins, block order preserved) and order-aware nanfirst/nanlast column laws (combine_parts, no commutativity); "
+        "differential execution with ties and NaNs on both sides of every chunk boundary, single chunk / all size-1 chunks, tree "
+        "depth up to 4.", CORR, "DESIGN.md §7 C06"),
+    chk("C16",
+        "Lean model returns labels in the order the code produces them (sorted / expected order / first appearance) and the "
+        "label->value mapping theorems are those of C01/C02; the harness checks strict ascending order, the sort=False order contract "
+        "and mapping equality against the oracle for every plan.", CORR, "DESIGN.md §7 C16"),
+    chk("C20",
+        "Lean theorems: flox engine nanmax/nanmin keep +-inf extremes (all-NaN detected by count, floxEngine_eq_blockVal), one-pass "
+        "variance = two-pass variance in exact arithmetic for all inputs incl. NaN/inf (var_finalize); the accumulate-in-result-dtype "
+        "claim is checked on the regenerated dtype table; wrap-around and rounding themselves are observed by differential execution "
+        "(int8/uint8/int16 totals beyond the input width; var/std eager vs chunked within 1e-9).", CORR, "DESIGN.md §7 C20",
+        note=TB + " Floating-point rounding and integer wrap-around are runtime behaviours the exact model cannot exhibit: observed, not proved."),
 ]
 
 _PENDING = "check not built yet in this round (planned: Lean model + correspondence, see DESIGN.md §7)"
-NOT_APPLICABLE = [{"property_id": f"C{n:02d}", "reason": _PENDING} for n in range(2, 21)]
+_DONE = {c["property_id"] for c in CHECKS}
+NOT_APPLICABLE = [{"property_id": f"C{n:02d}", "reason": _PENDING} for n in range(1, 21) if f"C{n:02d}" not in _DONE]
 
 NOTES = ("All checks are `./check <id>`: translator -> lake build (proofs re-checked) -> axiom audit -> correspondence streams -> "
          "verdict/evidence. Exit 0 = held; exit 1 + VIOLATION line; exit 2 = infrastructure error (never a VIOLATION).")
